@@ -1251,7 +1251,7 @@ func (api *API) ResizeAbort() error {
 		return errors.Wrap(err, "validating api method")
 	}
 
-	err := api.cluster.completeCurrentJob(resizeJobStateAborted)
+	err := api.cluster.abortCurrentJob()
 	return errors.Wrap(err, "complete current job")
 }
 
